@@ -58,6 +58,7 @@ func vh_ALIS() {
 	if !installed {
 		vCover("apply-without-install")
 		vAssert(!n.fsm.order, "C01|C10.operations-applied-in-order")
+		vCheckInv(n, true, true)
 		return
 	}
 	vCover("install-during-apply")
@@ -65,6 +66,10 @@ func vh_ALIS() {
 	vAssert(!n.fsm.order, "C10.no-operation-applied-on-a-state-that-already-reflects-it")
 	vAssert(vAnd(post.applied >= L, post.commit >= L), "C10|C11.indices-at-or-beyond-label-after-install")
 	vAssert(post.applied >= pre.applied, "C11.applied-monotone")
+	// the log was discarded up to the label, so nothing beyond the label can have been handed to the state machine:
+	// lastApplied names the label exactly (every index at or below lastApplied is reflected by the snapshot or was applied)
+	vAssert(vAnd(post.applied == L, post.commit == L), "C01|C03|C04|C10.applied-index-is-exactly-the-label-after-install")
+	vCheckInv(n, true, true)
 }
 
 func vTermsOf(l *persistentLog) []uint64 {
